@@ -504,3 +504,586 @@ Qed.
 
 Lemma gom_hit cf d g key p v : assoc key d = Some v -> get_or_make cf d g key p = Ok (v, d, g).
 Proof. unfold get_or_make. now intros ->. Qed.
+
+(* ------------------------------------------------------------------ small list utilities *)
+
+Fixpoint nodupb (l : list string) : bool :=
+  match l with
+  | [] => true
+  | x :: r => negb (existsb (String.eqb x) r) && nodupb r
+  end.
+
+Lemma existsb_eqb_in x l : existsb (String.eqb x) l = true <-> In x l.
+Proof.
+  rewrite existsb_exists. split.
+  - intros [y [Hy E]]. apply String.eqb_eq in E. now subst.
+  - intros H. exists x. split; [exact H | apply String.eqb_refl].
+Qed.
+
+Lemma nodupb_NoDup l : nodupb l = true -> NoDup l.
+Proof.
+  induction l as [|x r IH]; cbn; [constructor|]. rewrite andb_true_iff, negb_true_iff. intros [A B].
+  constructor; [|auto]. intros H. apply existsb_eqb_in in H. congruence.
+Qed.
+
+Lemma assoc_nodup_inj (l : dict) k1 k2 v1 v2 :
+  NoDup (map snd l) -> assoc k1 l = Some v1 -> assoc k2 l = Some v2 -> k1 <> k2 -> v1 <> v2.
+Proof.
+  induction l as [|[k v] l IH]; cbn; [discriminate|]. intros ND H1 H2 Hk. inversion ND as [|? ? Hn ND']; subst.
+  destruct (String.eqb k1 k) eqn:E1, (String.eqb k2 k) eqn:E2.
+  - apply String.eqb_eq in E1, E2. congruence.
+  - injection H1 as ->. intros ->. apply Hn. apply in_map_iff. exists (k2, v2).
+    split; [reflexivity | now apply assoc_in].
+  - injection H2 as ->. intros <-. apply Hn. apply in_map_iff. exists (k1, v1).
+    split; [reflexivity | now apply assoc_in].
+  - eauto.
+Qed.
+
+Lemma prefix_trans p q v : prefix p q = true -> prefix q v = true -> prefix p v = true.
+Proof.
+  intros A B. apply prefix_split in A as [r ->]. apply prefix_split in B as [t ->].
+  rewrite app_assoc. apply prefix_app.
+Qed.
+
+Lemma incomparable_neq p q v w :
+  prefix p q = false -> prefix q p = false -> prefix p v = true -> prefix q w = true -> v <> w.
+Proof.
+  intros A B Hv Hw <-. destruct (prefix_comparable _ _ _ Hv Hw); congruence.
+Qed.
+
+Lemma first_is_prefix q p v : first_is q p = true -> prefix p v = true -> first_is q v = true.
+Proof. intros A B. apply prefix_split in B as [r ->]. now apply first_is_app. Qed.
+
+(* v has a prefix that no member of l has: v is not in l *)
+Lemma not_in_by_prefix p v l :
+  forallb (fun r => negb (prefix p r)) l = true -> prefix p v = true -> existsb (String.eqb v) l = false.
+Proof.
+  intros A B. destruct (existsb (String.eqb v) l) eqn:E; [|reflexivity].
+  apply existsb_eqb_in in E. rewrite forallb_forall in A. specialize (A _ E). now rewrite B in A.
+Qed.
+
+Lemma conflicting_false_id ex v : conflicting false ex v = false <-> ~ In v ex.
+Proof.
+  rewrite conflicting_false. cbn. now rewrite map_id.
+Qed.
+
+(* ------------------------------------------------------------------ PythonNameManager: basic facts *)
+
+Definition py_gen (s : py_state) (sp : space) : gen :=
+  match sp with Local => py_lgen s | Global => py_ggen s | Function => py_fgen s end.
+Definition py_fp (sp : space) : string :=
+  match sp with Local => py_local_prefix | Global => py_global_prefix | Function => py_function_prefix end.
+Definition py_op_of (sp : space) (k : string) : py_op :=
+  match sp with Local => PLocal k | Global => PGlobal k | Function => PFunction k end.
+Definition py0 : py_state :=
+  mkPy [] (new_gen py_local_prefix) py_global_start (new_gen py_global_prefix) [] (new_gen py_function_prefix).
+
+Lemma py_init_ok : py_init = Ok py0.
+Proof. reflexivity. Qed.
+
+Lemma space_eqb_eq a b : space_eqb a b = true <-> a = b.
+Proof. destruct a, b; cbn; split; congruence. Qed.
+
+Lemma space_eqb_refl a : space_eqb a a = true.
+Proof. now destruct a. Qed.
+
+Definition space_of_getitem (k : string) : space := if is_state_variable k then Global else Local.
+
+Lemma py_getitem s k : py_step s (PGetItem k) = py_step s (py_op_of (space_of_getitem k) k).
+Proof. unfold space_of_getitem. cbn. now destruct (is_state_variable k). Qed.
+
+(* what a lookup does: a hit returns the binding and changes nothing; a miss asks that space's generator
+   and records the answer *)
+Lemma py_prim_spec s sp k o s' :
+  py_step s (py_op_of sp k) = Ok (o, s') ->
+  exists v, o = Some v /\
+    ((py_lookup s sp k = Some v /\ s' = s) \/
+     (py_lookup s sp k = None /\
+      (forall sp' k', py_lookup s' sp' k' =
+                      if space_eqb sp' sp && String.eqb k' k then Some v else py_lookup s sp' k') /\
+      gen_call false (py_gen s sp) (make_identifier k) = Ok (v, py_gen s' sp) /\
+      (forall sp', sp' <> sp -> py_gen s' sp' = py_gen s sp'))).
+Proof.
+  destruct sp; cbn [py_op_of py_step]; unfold py_name_local, py_name_global, py_name_function.
+  - destruct (get_or_make false (py_local s) (py_lgen s) k None) as [[[v d] g]| |] eqn:E; try discriminate.
+    intros H; injection H as <- <-. exists v. split; [reflexivity|].
+    apply gom_spec in E as [[A [-> ->]]|[A [-> G]]].
+    + left. split; [exact A|]. now destruct s.
+    + right. cbn. repeat split; auto.
+      * intros sp' k'. destruct sp'; cbn; auto.
+      * intros sp' Hs. destruct sp'; cbn; congruence.
+  - destruct (get_or_make false (py_global s) (py_ggen s) k None) as [[[v d] g]| |] eqn:E; try discriminate.
+    intros H; injection H as <- <-. exists v. split; [reflexivity|].
+    apply gom_spec in E as [[A [-> ->]]|[A [-> G]]].
+    + left. split; [exact A|]. now destruct s.
+    + right. cbn. repeat split; auto.
+      * intros sp' k'. destruct sp'; cbn; auto.
+      * intros sp' Hs. destruct sp'; cbn; congruence.
+  - destruct (get_or_make false (py_func s) (py_fgen s) k None) as [[[v d] g]| |] eqn:E; try discriminate.
+    intros H; injection H as <- <-. exists v. split; [reflexivity|].
+    apply gom_spec in E as [[A [-> ->]]|[A [-> G]]].
+    + left. split; [exact A|]. now destruct s.
+    + right. cbn. repeat split; auto.
+      * intros sp' k'. destruct sp'; cbn; auto.
+      * intros sp' Hs. destruct sp'; cbn; congruence.
+Qed.
+
+Lemma py_prim_hit s sp k v : py_lookup s sp k = Some v -> py_step s (py_op_of sp k) = Ok (Some v, s).
+Proof.
+  destruct sp; cbn [py_op_of py_step py_lookup]; unfold py_name_local, py_name_global, py_name_function;
+    intros H; rewrite (gom_hit _ _ _ _ _ _ H); now destruct s.
+Qed.
+
+Lemma py_prim_total s sp k : exists v s', py_step s (py_op_of sp k) = Ok (Some v, s').
+Proof.
+  destruct sp; cbn [py_op_of py_step]; unfold py_name_local, py_name_global, py_name_function.
+  - destruct (gom_total false (py_local s) (py_lgen s) k None) as [v [d [g ->]]]. eauto.
+  - destruct (gom_total false (py_global s) (py_ggen s) k None) as [v [d [g ->]]]. eauto.
+  - destruct (gom_total false (py_func s) (py_fgen s) k None) as [v [d [g ->]]]. eauto.
+Qed.
+
+(* every operation is clear_locals or a lookup in one space *)
+Lemma py_op_view op : op = PClear \/ exists sp k, forall s, py_step s op = py_step s (py_op_of sp k).
+Proof.
+  destruct op as [k|k|k|k|]; [right|right|right|right|now left].
+  - exists Global, k. reflexivity.
+  - exists Local, k. reflexivity.
+  - exists Function, k. reflexivity.
+  - exists (space_of_getitem k), k. intros s. apply py_getitem.
+Qed.
+
+Lemma py_prim_returns s sp k v s' :
+  py_step s (py_op_of sp k) = Ok (Some v, s') -> py_lookup s' sp k = Some v.
+Proof.
+  intros H. apply py_prim_spec in H as [w [E [[A ->]|[_ [L _]]]]]; injection E as <-; [exact A|].
+  rewrite L, space_eqb_refl, String.eqb_refl. reflexivity.
+Qed.
+
+Lemma py_prim_keeps s sp0 k0 o s' sp k v :
+  py_step s (py_op_of sp0 k0) = Ok (o, s') -> py_lookup s sp k = Some v -> py_lookup s' sp k = Some v.
+Proof.
+  intros H A. apply py_prim_spec in H as [w [_ [[_ ->]|[N [L _]]]]]; [exact A|].
+  rewrite L. destruct (space_eqb sp sp0 && String.eqb k k0) eqn:E; [|exact A].
+  apply andb_true_iff in E as [E1 E2]. apply space_eqb_eq in E1. apply String.eqb_eq in E2. subst. congruence.
+Qed.
+
+(* ------------------------------------------------------------------ C13: termination (Python) *)
+
+Theorem py_step_total s op : exists o s', py_step s op = Ok (o, s').
+Proof.
+  destruct (py_op_view op) as [->|[sp [k E]]].
+  - cbn. eauto.
+  - rewrite E. destruct (py_prim_total s sp k) as [v [s' ->]]. eauto.
+Qed.
+
+Theorem py_run_total ops : forall s, exists outs s', py_run s ops = Ok (outs, s').
+Proof.
+  induction ops as [|op ops IH]; intros s; cbn; [eauto|].
+  destruct (py_step_total s op) as [o [s1 ->]]. destruct (IH s1) as [os [s2 ->]]. eauto.
+Qed.
+
+(* ------------------------------------------------------------------ C13: stability (Python) *)
+
+Lemma py_step_keeps s op o s' sp k v :
+  py_step s op = Ok (o, s') -> py_lookup s sp k = Some v ->
+  (sp = Local /\ op = PClear) \/ py_lookup s' sp k = Some v.
+Proof.
+  intros H A. destruct (py_op_view op) as [->|[sp0 [k0 E]]].
+  - cbn in H. injection H as <- <-. destruct sp; cbn in *; auto.
+  - rewrite E in H. right. eapply py_prim_keeps; eauto.
+Qed.
+
+Lemma py_run_keeps ops : forall s outs s' sp k v,
+  py_run s ops = Ok (outs, s') -> py_lookup s sp k = Some v ->
+  (sp = Local -> ~ In PClear ops) -> py_lookup s' sp k = Some v.
+Proof.
+  induction ops as [|op ops IH]; intros s outs s' sp k v H A NC; cbn in H.
+  - injection H as <- <-. exact A.
+  - destruct (py_step s op) as [[o s1]| |] eqn:E; try discriminate.
+    destruct (py_run s1 ops) as [[os s2]| |] eqn:R; try discriminate. injection H as <- <-.
+    destruct (py_step_keeps _ _ _ _ _ _ _ E A) as [[-> ->]|A1].
+    + exfalso. apply (NC eq_refl). now left.
+    + eapply IH; eauto. intros Hs Hin. apply (NC Hs). now right.
+Qed.
+
+(* a name looked up again after any interleaving of other lookups is the first answer
+   (locals: within one function body, i.e. without clear_locals in between) *)
+Theorem py_stable s sp k v s1 ops outs s2 :
+  py_step s (py_op_of sp k) = Ok (Some v, s1) -> py_run s1 ops = Ok (outs, s2) ->
+  (sp = Local -> ~ In PClear ops) ->
+  py_step s2 (py_op_of sp k) = Ok (Some v, s2).
+Proof.
+  intros H R NC. apply py_prim_hit. eapply py_run_keeps; eauto. eapply py_prim_returns; eauto.
+Qed.
+
+Theorem py_stable_getitem s k v s1 ops outs s2 :
+  py_step s (PGetItem k) = Ok (Some v, s1) -> py_run s1 ops = Ok (outs, s2) ->
+  (is_state_variable k = false -> ~ In PClear ops) ->
+  py_step s2 (PGetItem k) = Ok (Some v, s2).
+Proof.
+  rewrite !py_getitem. intros H R NC. eapply py_stable; eauto.
+  unfold space_of_getitem. destruct (is_state_variable k); [discriminate | auto].
+Qed.
+
+(* ------------------------------------------------------------------ C13: injectivity (Python) *)
+
+Definition py_extra (sp : space) : dict := match sp with Global => py_global_start | _ => [] end.
+
+Record PyInv (s : py_state) : Prop := {
+  pi_fp : forall sp, g_fp (py_gen s sp) = py_fp sp;
+  pi_cover : forall sp k v, py_lookup s sp k = Some v ->
+                            In v (g_existing (py_gen s sp)) \/ In (k, v) (py_extra sp);
+  pi_shape : forall sp k v, py_lookup s sp k = Some v ->
+                            In (k, v) (py_extra sp) \/ out_shape (py_fp sp) (make_identifier k) v;
+  pi_inj : forall sp k1 k2 v1 v2, py_lookup s sp k1 = Some v1 -> py_lookup s sp k2 = Some v2 ->
+                                  k1 <> k2 -> v1 <> v2
+}.
+
+Lemma py_global_prefix_nonword : sall is_word py_global_prefix = false.
+Proof. reflexivity. Qed.
+Lemma py_function_prefix_nonword : sall is_word py_function_prefix = false.
+Proof. reflexivity. Qed.
+Lemma py_local_prefix_no_us : sall (fun c => negb (is_us c)) py_local_prefix = true.
+Proof. reflexivity. Qed.
+
+(* every generated name starts with its space's forced prefix *)
+Lemma py_shape_prefix sp b v : out_shape (py_fp sp) b v -> prefix (py_fp sp) v = true.
+Proof.
+  destruct sp; cbn [py_fp]; intros H.
+  - eapply out_shape_head; [apply py_local_prefix_no_us | apply prefix_app | exact H].
+  - apply out_shape_nonword in H as [->|[n ->]]; [| |apply py_global_prefix_nonword].
+    + apply prefix_app.
+    + unfold numbered. rewrite app_assoc. apply prefix_app.
+  - apply out_shape_nonword in H as [->|[n ->]]; [| |apply py_function_prefix_nonword].
+    + apply prefix_app.
+    + unfold numbered. rewrite app_assoc. apply prefix_app.
+Qed.
+
+Lemma py_start_not_generated :
+  forallb (fun kv => negb (prefix py_global_prefix (snd kv))) py_global_start = true.
+Proof. reflexivity. Qed.
+
+Lemma py_new_not_extra sp b v k2 v2 : out_shape (py_fp sp) b v -> In (k2, v2) (py_extra sp) -> v <> v2.
+Proof.
+  intros H I. apply py_shape_prefix in H. destruct sp; cbn in I; try contradiction.
+  pose proof py_start_not_generated as F. rewrite forallb_forall in F. specialize (F _ I). cbn in F.
+  intros <-. cbn [py_fp] in H. now rewrite H in F.
+Qed.
+
+Lemma PyInv_py0 : PyInv py0.
+Proof.
+  constructor.
+  - intros []; reflexivity.
+  - intros [] k v H; cbn in H; try discriminate. right. now apply assoc_in.
+  - intros [] k v H; cbn in H; try discriminate. left. now apply assoc_in.
+  - intros sp k1 k2 v1 v2 H1 H2 Hk. destruct sp; [cbn in H1; discriminate | | cbn in H1; discriminate].
+    apply (assoc_nodup_inj py_global_start k1 k2 v1 v2); auto. apply nodupb_NoDup. reflexivity.
+Qed.
+
+Lemma PyInv_step s op o s' : PyInv s -> py_step s op = Ok (o, s') -> PyInv s'.
+Proof.
+  intros I H. destruct (py_op_view op) as [->|[sp [k E]]].
+  - cbn in H. injection H as <- <-. destruct I as [F C Sh J]. constructor.
+    + intros []; cbn; auto; [apply (F Global) | apply (F Function)].
+    + intros [] k v Hl; cbn in Hl; try discriminate; [apply (C Global) | apply (C Function)]; exact Hl.
+    + intros [] k v Hl; cbn in Hl; try discriminate; [apply (Sh Global) | apply (Sh Function)]; exact Hl.
+    + intros [] k1 k2 v1 v2 H1 H2; cbn in H1, H2; try discriminate;
+        [apply (J Global) | apply (J Function)]; assumption.
+  - rewrite E in H. apply py_prim_spec in H as [v [_ [[_ ->]|[N [L [G O]]]]]]; [exact I|].
+    destruct I as [F C Sh J]. apply gen_call_spec in G as [S [NC [EX FP]]]. rewrite F in S.
+    apply conflicting_false_id in NC.
+    assert (Lk : forall sp' k' v', py_lookup s' sp' k' = Some v' ->
+                   (sp' = sp /\ k' = k /\ v' = v) \/ ((sp' <> sp \/ k' <> k) /\ py_lookup s sp' k' = Some v')).
+    { intros sp' k' v' Hl. rewrite L in Hl. destruct (space_eqb sp' sp) eqn:E1; cbn in Hl.
+      - apply space_eqb_eq in E1. destruct (String.eqb k' k) eqn:E2.
+        + apply String.eqb_eq in E2. injection Hl as <-. auto.
+        + apply String.eqb_neq in E2. auto.
+      - right. split; [|exact Hl]. left. intros ->. now rewrite space_eqb_refl in E1. }
+    assert (Gn : forall sp', g_existing (py_gen s' sp') = if space_eqb sp' sp then v :: g_existing (py_gen s sp')
+                                                           else g_existing (py_gen s sp')).
+    { intros sp'. destruct (space_eqb sp' sp) eqn:E1.
+      - apply space_eqb_eq in E1. subst. exact EX.
+      - rewrite O; [reflexivity|]. intros ->. now rewrite space_eqb_refl in E1. }
+    constructor.
+    + intros sp'. destruct (space_eqb sp' sp) eqn:E1.
+      * apply space_eqb_eq in E1. subst. now rewrite FP.
+      * rewrite O; [apply F|]. intros ->. now rewrite space_eqb_refl in E1.
+    + intros sp' k' v' Hl. rewrite Gn. apply Lk in Hl as [[-> [-> ->]]|[_ Hl]].
+      * rewrite space_eqb_refl. left. now left.
+      * destruct (C _ _ _ Hl) as [A|A]; [|now right]. left. destruct (space_eqb sp' sp); [now right | exact A].
+    + intros sp' k' v' Hl. apply Lk in Hl as [[-> [-> ->]]|[_ Hl]]; [now right | now apply Sh].
+    + intros sp' k1 k2 v1 v2 H1 H2 Hk. apply Lk in H1 as [[-> [-> ->]]|[D1 H1]], H2 as [[E2 [-> ->]]|[D2 H2]].
+      * congruence.
+      * destruct D2 as [D2|D2]; [congruence|]. destruct (C _ _ _ H2) as [A|A].
+        -- intros <-. contradiction.
+        -- eapply py_new_not_extra; eauto.
+      * subst sp'. destruct (C _ _ _ H1) as [A|A].
+        -- intros ->. contradiction.
+        -- apply not_eq_sym. eapply py_new_not_extra; eauto.
+      * eapply J; eauto.
+Qed.
+
+Lemma PyInv_run ops : forall s outs s', PyInv s -> py_run s ops = Ok (outs, s') -> PyInv s'.
+Proof.
+  induction ops as [|op ops IH]; intros s outs s' I H; cbn in H.
+  - now injection H as <- <-.
+  - destruct (py_step s op) as [[o s1]| |] eqn:E; try discriminate.
+    destruct (py_run s1 ops) as [[os s2]| |] eqn:R; try discriminate. injection H as <- <-.
+    eapply IH; [|exact R]. eapply PyInv_step; eauto.
+Qed.
+
+(* the three name spaces of the Python target cannot meet *)
+Lemma py_spaces_apart :
+  prefix py_local_prefix py_global_prefix = false /\ prefix py_global_prefix py_local_prefix = false /\
+  prefix py_local_prefix py_function_prefix = false /\ prefix py_function_prefix py_local_prefix = false /\
+  prefix py_global_prefix py_function_prefix = false /\ prefix py_function_prefix py_global_prefix = false /\
+  forallb (fun kv => negb (prefix py_local_prefix (snd kv)) && negb (prefix py_function_prefix (snd kv)))
+          py_global_start = true.
+Proof. repeat split; reflexivity. Qed.
+
+Lemma py_value_class s sp k v :
+  PyInv s -> py_lookup s sp k = Some v -> In (k, v) (py_extra sp) \/ prefix (py_fp sp) v = true.
+Proof.
+  intros I H. destruct (pi_shape _ I _ _ _ H) as [A|A]; [now left | right; now apply py_shape_prefix in A].
+Qed.
+
+Theorem py_injective s sp1 k1 v1 sp2 k2 v2 :
+  PyInv s -> py_lookup s sp1 k1 = Some v1 -> py_lookup s sp2 k2 = Some v2 ->
+  (sp1 <> sp2 \/ k1 <> k2) -> v1 <> v2.
+Proof.
+  intros I H1 H2 D.
+  assert (Same : sp1 = sp2 -> v1 <> v2).
+  { intros ->. destruct D as [D|D]; [congruence|]. eapply (pi_inj _ I); eauto. }
+  destruct py_spaces_apart as [A1 [A2 [A3 [A4 [A5 [A6 A7]]]]]]. rewrite forallb_forall in A7.
+  pose proof (py_value_class _ _ _ _ I H1) as C1. pose proof (py_value_class _ _ _ _ I H2) as C2.
+  destruct sp1, sp2; auto; cbn [py_extra py_fp In] in C1, C2;
+    repeat match goal with H : False \/ _ |- _ => destruct H as [[]|H] end.
+  - destruct C2 as [C2|C2].
+    + specialize (A7 _ C2). cbn in A7. apply andb_true_iff in A7 as [A7 _]. intros <-. now rewrite C1 in A7.
+    + eapply incomparable_neq; [exact A1 | exact A2 | exact C1 | exact C2].
+  - eapply incomparable_neq; [exact A3 | exact A4 | exact C1 | exact C2].
+  - destruct C1 as [C1|C1].
+    + specialize (A7 _ C1). cbn in A7. apply andb_true_iff in A7 as [A7 _]. intros ->. now rewrite C2 in A7.
+    + eapply incomparable_neq; [exact A2 | exact A1 | exact C1 | exact C2].
+  - destruct C1 as [C1|C1].
+    + specialize (A7 _ C1). cbn in A7. apply andb_true_iff in A7 as [_ A7]. intros ->. now rewrite C2 in A7.
+    + eapply incomparable_neq; [exact A5 | exact A6 | exact C1 | exact C2].
+  - eapply incomparable_neq; [exact A4 | exact A3 | exact C1 | exact C2].
+  - destruct C2 as [C2|C2].
+    + specialize (A7 _ C2). cbn in A7. apply andb_true_iff in A7 as [_ A7]. intros <-. now rewrite C1 in A7.
+    + eapply incomparable_neq; [exact A6 | exact A5 | exact C1 | exact C2].
+Qed.
+
+(* reachable states of the Python manager *)
+Definition py_reach (s : py_state) : Prop := exists ops outs, py_run py0 ops = Ok (outs, s).
+
+Lemma py_reach_inv s : py_reach s -> PyInv s.
+Proof. intros [ops [outs R]]. eapply PyInv_run; [apply PyInv_py0 | exact R]. Qed.
+
+(* ------------------------------------------------------------------ C13: storage class (Python) *)
+
+Definition py_self : string := "self.".
+Definition py_global_attr : string := "global_".
+
+Lemma py_global_prefix_eq : py_global_prefix = py_self ++ py_global_attr.
+Proof. reflexivity. Qed.
+
+Lemma py_self_facts :
+  prefix py_self py_global_prefix = true /\
+  forallb (fun kv => prefix py_self (snd kv)) py_global_start = true /\
+  prefix py_self py_local_prefix = false /\ prefix py_local_prefix py_self = false.
+Proof. repeat split; reflexivity. Qed.
+
+Lemma incomparable_prefix_false p q v :
+  prefix p q = false -> prefix q p = false -> prefix p v = true -> prefix q v = false.
+Proof.
+  intros A B C. destruct (prefix q v) eqn:E; [|reflexivity].
+  destruct (prefix_comparable _ _ _ C E); congruence.
+Qed.
+
+Lemma py_state_value_self s k v :
+  PyInv s -> py_lookup s Global k = Some v -> prefix py_self v = true.
+Proof.
+  intros I H. destruct py_self_facts as [A [B _]].
+  destruct (py_value_class _ _ _ _ I H) as [C|C].
+  - rewrite forallb_forall in B. exact (B _ C).
+  - eapply prefix_trans; [exact A | exact C].
+Qed.
+
+(* persistent names live on the instance, all others are locals of the generated method *)
+Theorem py_storage s k v s' :
+  PyInv s -> py_step s (PGetItem k) = Ok (Some v, s') ->
+  (is_state_variable k = true -> prefix py_self v = true /\ prefix py_local_prefix v = false) /\
+  (is_state_variable k = false -> prefix py_local_prefix v = true /\ prefix py_self v = false).
+Proof.
+  intros I H. pose proof (PyInv_step _ _ _ _ I H) as I'. rewrite py_getitem in H.
+  apply py_prim_returns in H. destruct py_self_facts as [_ [_ [A B]]]. unfold space_of_getitem in H.
+  split; intros E; rewrite E in H.
+  - pose proof (py_state_value_self _ _ _ I' H) as P. split; [exact P|].
+    eapply incomparable_prefix_false; [exact A | exact B | exact P].
+  - destruct (py_value_class _ _ _ _ I' H) as [[]|P]. cbn [py_fp] in P. split; [exact P|].
+    eapply incomparable_prefix_false; [exact B | exact A | exact P].
+Qed.
+
+(* ------------------------------------------------------------------ C13: legality (Python) *)
+
+Fixpoint strip_prefix (p s : string) : option string :=
+  match p with
+  | EmptyString => Some s
+  | String c p' => match s with
+                   | String d s' => if Ascii.eqb c d then strip_prefix p' s' else None
+                   | EmptyString => None
+                   end
+  end.
+
+Lemma strip_prefix_some p s a : strip_prefix p s = Some a -> s = p ++ a.
+Proof.
+  revert s; induction p as [|c p IH]; intros s H; cbn in H.
+  - now injection H as ->.
+  - destruct s as [|d s]; [discriminate|]. destruct (Ascii.eqb c d) eqn:E; [|discriminate].
+    apply Ascii.eqb_eq in E. subst. cbn. now rewrite (IH _ H).
+Qed.
+
+Lemma py_identifier_by_prefix p v :
+  first_is (fun c => is_letter c || is_us c) p = true ->
+  forallb (fun r => negb (prefix p r)) py_keywords = true ->
+  prefix p v = true -> sall is_word v = true -> py_identifier v = true.
+Proof.
+  intros F K P W. unfold py_identifier. rewrite W, (first_is_prefix _ _ _ F P), (not_in_by_prefix _ _ _ K P).
+  reflexivity.
+Qed.
+
+Definition py_func_tag : string := "<func>".
+Definition py_func_head : string := "func_".
+
+Lemma py_func_tag_sanitised : lstrip_us (smap sanitise_char py_func_tag) = py_func_head.
+Proof. reflexivity. Qed.
+
+Lemma py_legal_facts :
+  first_is (fun c => is_letter c || is_us c) py_local_prefix = true /\
+  forallb (fun r => negb (prefix py_local_prefix r)) py_keywords = true /\
+  sall is_word py_local_prefix = true /\
+  first_is (fun c => is_letter c || is_us c) py_global_attr = true /\
+  forallb (fun r => negb (prefix py_global_attr r)) py_keywords = true /\
+  sall is_word py_global_attr = true /\
+  first_is (fun c => is_letter c || is_us c) py_func_head = true /\
+  forallb (fun r => negb (prefix py_func_head r)) py_keywords = true /\
+  forallb (fun kv => match strip_prefix py_self (snd kv) with Some a => py_identifier a | None => false end)
+          py_global_start = true.
+Proof. repeat split; reflexivity. Qed.
+
+Theorem py_legal s sp k v :
+  PyInv s -> py_lookup s sp k = Some v ->
+  match sp with
+  | Local => py_identifier v = true
+  | Global => exists a, v = py_self ++ a /\ py_identifier a = true
+  | Function => prefix py_func_tag k = true ->
+                exists a, v = py_function_prefix ++ a /\ py_identifier a = true
+  end.
+Proof.
+  intros I H. destruct py_legal_facts as [L1 [L2 [L3 [G1 [G2 [G3 [F1 [F2 St]]]]]]]].
+  pose proof (pi_shape _ I _ _ _ H) as Sh. destruct sp; cbn [py_extra py_fp] in Sh.
+  - destruct Sh as [[]|Sh]. apply py_identifier_by_prefix with (p := py_local_prefix); auto.
+    + now apply (py_shape_prefix Local) in Sh.
+    + eapply out_shape_word; [|exact Sh]. now rewrite sall_app, L3, make_identifier_word.
+  - destruct Sh as [Sh|Sh].
+    + rewrite forallb_forall in St. specialize (St _ Sh). cbn [snd] in St.
+      destruct (strip_prefix py_self v) as [a|] eqn:E; [|discriminate]. apply strip_prefix_some in E. eauto.
+    + assert (W : sall is_word (py_global_attr ++ make_identifier k) = true)
+        by now rewrite sall_app, G3, make_identifier_word.
+      apply out_shape_nonword in Sh as [->|[n ->]]; [| |apply py_global_prefix_nonword];
+        rewrite py_global_prefix_eq.
+      * exists (py_global_attr ++ make_identifier k). split; [now rewrite app_assoc|].
+        apply py_identifier_by_prefix with (p := py_global_attr); auto using prefix_app.
+      * exists (numbered (py_global_attr ++ make_identifier k) n). split.
+        { unfold numbered. now rewrite !app_assoc. }
+        apply py_identifier_by_prefix with (p := py_global_attr); auto using sall_numbered.
+        unfold numbered. rewrite app_assoc. apply prefix_app.
+  - intros T. destruct Sh as [[]|Sh]. apply prefix_split in T as [r ->].
+    assert (B : make_identifier (py_func_tag ++ r) = py_func_head ++ smap sanitise_char r).
+    { rewrite make_identifier_tag; rewrite py_func_tag_sanitised; [reflexivity | discriminate]. }
+    pose proof (make_identifier_word (py_func_tag ++ r)) as W. rewrite B in Sh, W.
+    apply out_shape_nonword in Sh as [->|[n ->]]; [| |apply py_function_prefix_nonword].
+    + eexists. split; [reflexivity|]. apply py_identifier_by_prefix with (p := py_func_head); auto using prefix_app.
+    + exists (numbered (py_func_head ++ smap sanitise_char r) n). split.
+      { unfold numbered. now rewrite !app_assoc. }
+      apply py_identifier_by_prefix with (p := py_func_head); auto using sall_numbered.
+      unfold numbered. rewrite app_assoc. apply prefix_app.
+Qed.
+
+(* function identifiers without the <func> tag: not an identifier / a keyword *)
+Lemma py_legal_function_refuted :
+  exists k v a, py_outputs [PFunction k] = Some [Some v] /\ v = py_function_prefix ++ a /\ py_identifier a = false.
+Proof. exists "1f", "self._functions.1f", "1f". repeat split; reflexivity. Qed.
+
+Lemma py_legal_function_keyword_refuted :
+  exists k v a, py_outputs [PFunction k] = Some [Some v] /\ v = py_function_prefix ++ a /\ py_identifier a = false.
+Proof. exists "if", "self._functions.if", "if". repeat split; reflexivity. Qed.
+
+(* ------------------------------------------------------------------ C13: reserved identifiers (Python) *)
+
+Definition py_reserved_words : list string := py_keywords ++ py_own_tokens.
+
+Lemma py_reserved_facts :
+  forallb (fun r => negb (prefix py_local_prefix r)) py_reserved_words = true /\
+  forallb (fun r => negb (prefix py_global_attr r)) py_reserved_words = true /\
+  existsb (String.eqb "self") py_reserved_words = true.
+Proof. repeat split; reflexivity. Qed.
+
+Lemma in_assoc_some {B} k (v : B) l : In (k, v) l -> assoc k l <> None.
+Proof.
+  induction l as [|[k' v'] l IH]; cbn; [contradiction|]. intros [E|E].
+  - injection E as -> ->. now rewrite String.eqb_refl.
+  - destruct (String.eqb k k'); [discriminate | auto].
+Qed.
+
+Lemma first_is_us_numbered b n : first_is (fun c => negb (is_us c)) b = true -> first_is is_us (numbered b n) = false.
+Proof. destruct b as [|c b]; cbn; [discriminate|]. now intros ->%negb_true_iff. Qed.
+
+(* generated names are never a keyword nor one of the names the generator writes on its own:
+   locals (incl. `self`), attributes of the instance (except the two start bindings, which ARE self.t/self.dt),
+   and no function attribute is private to the container object *)
+Theorem py_reserved s sp k v :
+  PyInv s -> py_lookup s sp k = Some v ->
+  match sp with
+  | Local => existsb (String.eqb v) py_reserved_words = false
+  | Global => assoc k py_global_start = None ->
+              exists a, v = py_self ++ a /\ existsb (String.eqb a) py_reserved_words = false
+  | Function => exists a, v = py_function_prefix ++ a /\ first_is is_us a = false
+  end.
+Proof.
+  intros I H. destruct py_reserved_facts as [R1 [R2 _]].
+  pose proof (pi_shape _ I _ _ _ H) as Sh. destruct sp; cbn [py_extra py_fp] in Sh.
+  - destruct Sh as [[]|Sh]. apply (py_shape_prefix Local) in Sh. cbn [py_fp] in Sh. exact (not_in_by_prefix _ _ _ R1 Sh).
+  - intros N. destruct Sh as [Sh|Sh]; [now apply in_assoc_some in Sh|].
+    apply out_shape_nonword in Sh as [->|[n ->]]; [| |apply py_global_prefix_nonword]; rewrite py_global_prefix_eq.
+    + exists (py_global_attr ++ make_identifier k). split; [now rewrite app_assoc|].
+      eapply not_in_by_prefix; [exact R2 | apply prefix_app].
+    + exists (numbered (py_global_attr ++ make_identifier k) n). split.
+      { unfold numbered. now rewrite !app_assoc. }
+      eapply not_in_by_prefix; [exact R2|]. unfold numbered. rewrite app_assoc. apply prefix_app.
+  - destruct Sh as [[]|Sh]. pose proof (make_identifier_first k) as F.
+    apply out_shape_nonword in Sh as [->|[n ->]]; [| |apply py_function_prefix_nonword].
+    + eexists. split; [reflexivity|]. destruct (make_identifier k); cbn in *; [discriminate|].
+      now apply negb_true_iff in F.
+    + exists (numbered (make_identifier k) n). split; [unfold numbered; now rewrite !app_assoc|].
+      now apply first_is_us_numbered.
+Qed.
+
+(* ------------------------------------------------------------------ examples (Python) *)
+
+Example ex_py_run :
+  py_outputs [PGetItem "y^"; PGetItem "y*"; PGetItem "<p>y^"; PGetItem "<p>y*"; PGetItem "y_1"; PGetItem "y";
+              PFunction "<func>f"; PGetItem "y^"; PClear; PGetItem "y*"]
+  = Some [Some "localy_"; Some "localy__0"; Some "self.global_p_y_"; Some "self.global_p_y__0";
+          Some "localy_1"; Some "localy_2"; Some "self._functions.func_f"; Some "localy_"; None; Some "localy_"].
+Proof. reflexivity. Qed.
+
+Example ex_py_reach : exists s, py_reach s /\ py_lookup s Local "y*" = Some "localy__0"
+                                /\ py_lookup s Global "<p>y^" = Some "self.global_p_y_".
+Proof.
+  destruct (py_run py0 [PGetItem "y^"; PGetItem "y*"; PGetItem "<p>y^"]) as [[o s]| |] eqn:E;
+    try (vm_compute in E; discriminate).
+  exists s. split; [now exists [PGetItem "y^"; PGetItem "y*"; PGetItem "<p>y^"], o|].
+  vm_compute in E. injection E as _ <-. split; reflexivity.
+Qed.
